@@ -22,7 +22,9 @@ Stmts == <<
   [t |-> "jalr a0",          k |-> "JumpLinkR", ops |-> <<Sp("op",0,3), Sp("rs1",5,6)>>],
   [t |-> "la a1, end",       k |-> "LoadAddr",  ops |-> <<Sp("op",0,1), Sp("rd",3,4), Sp("lab",7,9)>>],
   [t |-> "csrrw t0, 5, t1",  k |-> "Csr",       ops |-> <<Sp("op",0,4), Sp("rd",6,7), Sp("csr",10,10), Sp("rs1",13,14)>>],
-  [t |-> "jal ra, end",      k |-> "JumpLink",  ops |-> <<Sp("op",0,2), Sp("rd",4,5), Sp("lab",8,10)>>]
+  [t |-> "jal ra, end",      k |-> "JumpLink",  ops |-> <<Sp("op",0,2), Sp("rd",4,5), Sp("lab",8,10)>>],
+  [t |-> "j end",            k |-> "JumpLink",  ops |-> <<Sp("op",0,0), Sp("lab",2,4)>>],
+  [t |-> "b end",            k |-> "JumpLink",  ops |-> <<Sp("op",0,0), Sp("lab",2,4)>>]
 >>
 NS == Len(Stmts)
 Indents  == <<"", "    ", "\t", " \t ">>
